@@ -44,13 +44,15 @@ func c14Docs() []bson.D {
 		bD("_id", i(3), "a", i(5), "t", bson.A{}, "r", bson.A{}),
 		bD("_id", i(4), "a", bD("b", i(7), "e", bson.A{i(9)}), "t", i(1), "r", bson.A{bD("x", i(5))}),
 		bD("_id", i(5), "a", bD("b", bD("c", bD("deep", true))), "t", bson.A{bson.A{i(1), i(2)}, bson.A{i(3)}}, "r", bson.A{i(1), i(2), i(3)}),
-		bD("_id", bD("k", i(1)), "a", bD("e", bson.A{i(1), i(2)}), "r", bson.A{bD("x", i(2)), bD("x", i(2), "y", i(9))}),
+		bD("_id", bD("k", i(1), "tags", bson.A{i(1), i(2), i(3)}), "a", bD("e", bson.A{i(1), i(2)}), "r", bson.A{bD("x", i(2)), bD("x", i(2), "y", i(9))}),
 		bD("_id", i(7), "zz", i(1), "a", bD("zz", i(2), "b", bD("d", i(1)))),
+		// the _id is not the first field
+		bD("a", bD("b", i(3), "e", bson.A{i(4), i(5)}), "_id", i(8), "t", bson.A{i(1), i(2)}),
 	}
 }
 
 func c14Paths() []string {
-	return []string{"_id", "a", "a.b", "a.bb", "a.b.c", "a.e", "a.zz", "t", "tt", "r", "zz"}
+	return []string{"_id", "a", "a.b", "a.bb", "a.b.c", "a.e", "a.zz", "t", "tt", "r", "zz", "_id.tags", "_id.k"}
 }
 
 func c14Flags(level int) []interface{} {
